@@ -226,9 +226,9 @@ struct PoolScenario {
 const SIZES: [usize; 2] = [16, 32];
 /// size pairs for the pools that take a size per request (one pair per run)
 /// (the last two pairs fall into one bin of LockFreeMemoryPool - 144 and 256 - without both being the bin size)
-const SIZE_PAIRS: [[usize; 2]; 7] = [[16, 32], [8, 64], [24, 40], [64, 128], [250, 300], [136, 144], [250, 256]];
+const SIZE_PAIRS: [[usize; 2]; 8] = [[16, 32], [8, 64], [24, 40], [64, 128], [250, 300], [136, 144], [250, 256], [9000, 10000]];
 
-fn build_pool(kind: Kind, cfg: &zsim_core::Chan, low_retries: bool) -> (Pool, String) {
+fn build_pool(kind: Kind, cfg: &zsim_core::Chan, low_retries: bool, big: bool) -> (Pool, String) {
     match kind {
         Kind::Secure => {
             let cache = *cfg.pick(&[0usize, 0, 1, 2, 4]);
@@ -240,18 +240,19 @@ fn build_pool(kind: Kind, cfg: &zsim_core::Chan, low_retries: bool) -> (Pool, St
             (Pool::Secure(SecureMemoryPool::new(c).expect("secure pool")), format!("chunk=32 local_cache_size={} hot_cold_separation={}", cache, hot_cold))
         }
         Kind::LockFree => {
-            let mem = *cfg.pick(&[4096usize, 4096, 1024, 256]);
+            // (requests above the 8 KiB fast-bin threshold need a pool that can hold a few of them)
+            let mem = if big { 65536 } else { *cfg.pick(&[4096usize, 4096, 1024, 256]) };
             let retries = if low_retries { *cfg.pick(&[1u32, 2]) } else { *cfg.pick(&[64u32, 64, 1, 2]) };
             let c = LockFreePoolConfig { memory_size: mem, backoff_strategy: BackoffStrategy::None, enable_huge_pages: false, enable_numa_awareness: false, max_cas_retries: retries, ..Default::default() };
             (Pool::LockFree(Arc::new(LockFreeMemoryPool::new(c).expect("lockfree pool"))), format!("memory={} backoff=None max_cas_retries={}", mem, retries))
         }
         Kind::FiveLockFree => {
-            let cap = *cfg.pick(&[4096usize, 4096, 1024, 256]);
+            let cap = if big { 65536 } else { *cfg.pick(&[4096usize, 4096, 1024, 256]) };
             let c = FiveLevelPoolConfig { initial_capacity: cap, max_fast_block_size: 256, enable_huge_pages: false, enable_numa_awareness: false, ..Default::default() };
             (Pool::FiveLockFree(Arc::new(LockFreePool::new(c).expect("five lock-free"))), format!("capacity={}", cap))
         }
         Kind::FiveMutex => {
-            let cap = *cfg.pick(&[4096usize, 4096, 1024, 256]);
+            let cap = if big { 65536 } else { *cfg.pick(&[4096usize, 4096, 1024, 256]) };
             let c = FiveLevelPoolConfig { initial_capacity: cap, max_fast_block_size: 256, enable_huge_pages: false, enable_numa_awareness: false, ..Default::default() };
             (Pool::FiveMutex(Arc::new(MutexBasedPool::new(c).expect("five mutex"))), format!("capacity={}", cap))
         }
@@ -285,9 +286,10 @@ impl Scenario for PoolScenario {
         let e1cfg = e1::draw_cfg(&cfg, 12000);
         // sizes first: two sizes of one bin are interesting together with a small retry budget
         // (the fall-back that carves new memory under contention) and with both sizes in use
-        let sizes_run: [usize; 2] = if matches!(kind, Kind::LockFree | Kind::FiveLockFree | Kind::FiveMutex) { SIZE_PAIRS[cfg.biased_zero(7, 1, 2) as usize] } else { SIZES };
+        let sizes_run: [usize; 2] = if matches!(kind, Kind::LockFree | Kind::FiveLockFree | Kind::FiveMutex) { SIZE_PAIRS[cfg.biased_zero(8, 1, 2) as usize] } else { SIZES };
         let same_bin = kind == Kind::LockFree && (sizes_run == [136, 144] || sizes_run == [250, 256]);
-        let (pool, desc) = build_pool(kind, &cfg, same_bin);
+        let big = sizes_run[0] > 8192;
+        let (pool, desc) = build_pool(kind, &cfg, same_bin, big);
         cx.ev(format!("pool {} {} threads={}", kind.name(), desc, nthreads));
         let secure_preseed_extra = if kind == Kind::Secure { 4 } else { 0 };
         let ledger = Arc::new(Mutex::new(Ledger::default()));
@@ -704,7 +706,9 @@ impl Scenario for PoolScenario {
             let freed_now = ledger.lock().unwrap().freed.len();
             // requests above the five-level pools' max_fast_block_size (256) take the "huge" path
             let huge = matches!(kind, Kind::FiveLockFree | Kind::FiveMutex) && (size_fixed + 7) / 8 * 8 > 256;
-            let site_drain = if huge { format!("{}.huge", site_drain) } else { site_drain.clone() };
+            // ... and requests above LockFreeMemoryPool's fast-bin threshold (8192) its "skip list" path
+            let skip = kind == Kind::LockFree && size_fixed > 8192;
+            let site_drain = if huge { format!("{}.huge", site_drain) } else if skip { format!("{}.skip_list", site_drain) } else { site_drain.clone() };
             if freed_now > 0 {
                 cx.violate("block_lost", &site_drain, format!("{} freed block(s) were never served again although the class was drained until fresh memory appeared", freed_now));
             }
